@@ -225,3 +225,46 @@ pub fn run_side_crates(tier: Tier, seed: u64, obs: &mut Obs) -> Vec<(Value, Fail
     }
     fails
 }
+
+/// Replay a seeded sample of inputs through the crate's own SliceReader
+/// under Miri (C02 / C13 thorough tier): a stricter memory monitor for the
+/// same simulated runs, not a search engine. `Ok(n)` = n inputs replayed;
+/// `Err((violation?, text))`.
+pub fn run_miri_sample(tag: &str, lines: &[String]) -> Result<u64, (bool, String)> {
+    let dir = std::env::var("VERIF_MIRI_DIR")
+        .map(std::path::PathBuf::from)
+        .unwrap_or_else(|_| verif_root().join("sim/miri"));
+    if !dir.exists() {
+        return Err((false, "sim/miri missing".into()));
+    }
+    let out_dir = out_root().join("replays");
+    let _ = std::fs::create_dir_all(&out_dir);
+    let file = out_dir.join(format!("miri-sample-{tag}.txt"));
+    if std::fs::write(&file, lines.join("\n")).is_err() {
+        return Err((false, "cannot write the sample file".into()));
+    }
+    let out = Command::new("cargo")
+        .current_dir(&dir)
+        .env("MIRIFLAGS", "-Zmiri-disable-isolation")
+        .env("CARGO_NET_OFFLINE", "true")
+        .env_remove("RUSTFLAGS")
+        .args(["+nightly", "miri", "run", "--offline", "--", "sample", file.to_str().unwrap_or("")])
+        .stdin(Stdio::null())
+        .output();
+    let out = match out {
+        Ok(o) => o,
+        Err(e) => return Err((false, format!("cannot start cargo miri: {e}"))),
+    };
+    let so = String::from_utf8_lossy(&out.stdout).to_string();
+    let se = String::from_utf8_lossy(&out.stderr).to_string();
+    if se.contains("Undefined Behavior") || se.contains("error: unsupported operation") && se.contains("out-of-bounds") {
+        let line = se.lines().find(|l| l.contains("Undefined Behavior")).unwrap_or("").trim().to_string();
+        return Err((true, format!("Miri reports on the sample {}: {line}", file.display())));
+    }
+    if let Some(l) = so.lines().find(|l| l.starts_with("sample ok")) {
+        let n = l.split_whitespace().nth(2).and_then(|x| x.parse().ok()).unwrap_or(0);
+        return Ok(n);
+    }
+    let tail: Vec<&str> = se.lines().rev().take(3).collect();
+    Err((false, format!("sample did not complete; exit {:?}; {}", out.status.code(), tail.join(" | "))))
+}
